@@ -565,7 +565,7 @@ def fam_conv_chain(rng, big=False):
 SINGLE_KINDS = ["conv", "dw", "fc", "maxpool", "avgpool", "add", "sub", "mul", "logistic", "tanh", "lrelu", "hswish",
                 "softmax", "mean", "resize_bilinear", "resize_nearest", "quantize", "tconv", "reshape", "pad", "pad_bc",
                 "slice", "concat", "minimum", "maximum", "relu", "abs", "add_bcast", "mul_scalar", "transpose", "transpose_c", "conv_head", "prelu",
-                "conv_dil", "dw_dil", "avgpool_s4", "split", "mul_max", "relu_chain"]
+                "conv_dil", "dw_dil", "avgpool_s4", "split", "mul_max", "relu_chain", "slice_conv"]
 
 
 def fam_single_op(rng, kind=None):
@@ -634,6 +634,26 @@ def fam_single_op(rng, kind=None):
             outs_.append(p_)
         net.output(*outs_)
         return net
+    elif kind == "slice_conv":
+        # a crop (STRIDED_SLICE with unit strides) along height, width and / or depth folded into a padded kernel operator as a
+        # read offset: the operator's padding refers to the window, not to the tensor it is cut from
+        hh, ww, cc = rng.randrange(6, 16), rng.randrange(6, 16), rng.choice([4, 8, 16])
+        x = _inp(net, rng, [1, hh, ww, cc], dt)
+        y0, y1 = (rng.randrange(0, 4), hh - rng.randrange(0, 4)) if rng.random() < 0.7 else (0, hh)
+        x0, x1 = (rng.randrange(0, 4), ww - rng.randrange(0, 4)) if rng.random() < 0.7 else (0, ww)
+        c0, c1 = (0, cc) if rng.random() < 0.7 else rng.choice([(0, cc // 2), (cc // 2, cc)])
+        t_ = strided_slice(net, rng, x, [0, y0, x0, c0], [1, y1, x1, c1])
+        ch = rng.choice(["conv", "conv", "dw", "maxpool", "avgpool"])
+        k_ = rng.choice([3, 3, 2, 5])
+        if ch == "conv":
+            y = conv2d(net, rng, t_, rng.choice([4, 8]), (k_, k_), (rng.choice([1, 1, 2]),) * 2, (1, 1), "SAME", rng.choice(["NONE", "RELU"]))
+        elif ch == "dw":
+            y = depthwise(net, rng, t_, (3, 3), (1, 1), (1, 1), "SAME")
+        else:
+            y = pool(net, rng, t_, "MAX_POOL_2D" if ch == "maxpool" else "AVERAGE_POOL_2D", (k_, k_), (1, 1), "SAME")
+        if rng.random() < 0.3:
+            net.output(y, t_)
+            return net
     elif kind in ("softmax",):
         x = _inp(net, rng, [1, rng.choice([2, 10, 64, 100])] if rng.random() < 0.6 else [1, h, w, c], dt)
         y = unary(net, rng, "SOFTMAX", x, dict(Beta=1.0))
